@@ -437,7 +437,6 @@ func TestC33(t *testing.T) {
 		"a defaulted leaf inside a case is due when its own case is selected, must stay unset when another case is selected, and may be either when no case of the choice is selected")
 	witnessF27(rec)
 	witnessF20(rec)
-	witnessF51(rec)
 	cnt := newCounter()
 	cases := 0
 	rapid.Check(t, func(rt *rapid.T) {
